@@ -277,3 +277,53 @@ PROPS.update({
         "assumptions": ["float results are compared across builds, not modelled"],
     },
 })
+
+PARSER_RULE = ("parser stream: 14+ small emitted streams covering every subframe type (constant, verbatim, fixed, LPC), 1..3 channels, left/side, right/side and mid/side frames, widths 8..24, "
+               "several frames incl. a short last one; for each: EVERY single-bit flip of the whole stream, every 2..8-bit burst pattern (127 patterns) at every k-th bit position inside the "
+               "frames (k = 16 quick, 1 thorough: exhaustive), truncation at every byte; plus random byte strings, random tails after a valid STREAMINFO, random frame headers after a valid sync "
+               "code, random byte substitutions. The real parser + decoder run under catch_unwind; every mutant's outcome (error / accepted same audio / accepted different audio / parser panic / "
+               "decoder panic) must equal the outcome of the Lean mirror Model/RepoParser.lean on the same bytes (debug-profile arithmetic for the dev build, wrapping for release). Direct oracle: "
+               "no panic anywhere; no mutant that alters bits inside a frame is accepted with different audio. distinct = (family, width/channels, subframe kinds)")
+
+PROPS.update({
+    "C16": {
+        "theorem_modules": ["FlacVerif.Theorems.C16crc"],
+        "streams": {"quick": [("parser", ["--cases", 14, "--burst-stride", 40, "--random", 1500])],
+                    "thorough": [("parser", ["--cases", 40, "--burst-stride", 1, "--random", 200000])],
+                    "search": [("parser", ["--cases", 30, "--burst-stride", 4, "--random", 20000])]},
+        "profiles": {"quick": ["release", "dev"], "thorough": ["release", "dev"]},
+        "diff_prefix": ["c16."], "oracle_fields": ["o_c16"], "rule": PARSER_RULE,
+        "trusted_base": ["Model/RepoParser.lean: hand mirror of parser.rs / decode.rs with explicit panic outcomes, tied to the code by agreeing on the outcome of every generated mutant in both cargo profiles",
+                         "bitwise CRC model Model/Codes.lean `crcBits` vs the table-driven `crc` crate: tied by the same correspondence (every accepted/rejected mutant exercises both CRCs) and by C02's byte-exact re-serialisation"],
+        "assumptions": ["'never accepts an altered frame' is proved for every alteration confined to a burst of <= 8 (header) / <= 16 (frame) bits that leaves the framing intact (C16_*_burst_rejected); alterations that change the framing (e.g. the block-size code) move the position of the check sums and are decided by the exhaustive enumeration, as the property's quantifier prescribes (a universal claim is impossible with 16 check bits)"],
+    },
+})
+
+CONFIG_RULE = ("config stream: corpus (F2: partitions 0 / 1000, max_order 7; F13: Tukey without alpha; K1: block_size = usize::MAX) first; verification grid: each of the 17 configuration "
+               "fields at 0, 1, min-1, min, min+1, max-1, max, max+1, 255, 256, 65535, 65536, 2^32+max, usize::MAX (alpha: +-0, 1, 1+-ulp, denormals, +-inf, NaNs, 1e-6, 0.40001; all 512 "
+               "combinations of the 9 booleans in thorough), others default - EXHAUSTIVE per field - plus random pairs of fields at boundary values; every accepted grid point is encoded "
+               "against a probe corpus of 12 signals (single- and multi-thread) under catch_unwind and decoded by claxon. TOML: random valid and boundary configurations, Value::try_from / "
+               "to_string / from_str round trip, and documents with 0..12 randomly omitted key paths (fields, whole sections, enum tags, per-variant fields). The GENERATED Lean model "
+               "(Gen/Config.lean, produced by tools/translate.py from config.rs on every run) must give the same verify verdict, the same serialised value tree and the same parsed "
+               "configuration or error. distinct = (kind, field or removal class)")
+
+PROPS.update({
+    "C07": {
+        "driver": "fvconfig",
+        "streams": {"quick": [("config", ["--cases", 150])], "thorough": [("config", ["--cases", 800, "--thorough"])], "search": [("config", ["--cases", 800, "--thorough"])]},
+        "profiles": {"quick": ["release", "dev"], "thorough": ["release", "dev"]},
+        "diff_prefix": ["c07."], "oracle_fields": ["o_c07"], "rule": CONFIG_RULE,
+        "trusted_base": ["tools/translate.py (Rust-subset -> Lean translator, fails closed) — validated on every run by comparing the generated verify with the real into_verified on the whole grid",
+                         "InRange in Theorems/C07.lean is written by hand from the property statement (literal numbers), not from the code",
+                         "panic sites inside the float code (autocorrelation / Levinson asserts) are outside the model: covered by the probe-corpus enumeration only"],
+        "assumptions": ["alpha is a genuine f32 bit pattern (< 2^32)"],
+    },
+    "C19": {
+        "driver": "fvconfig",
+        "streams": {"quick": [("config", ["--cases", 150])], "thorough": [("config", ["--cases", 800, "--thorough"])], "search": [("config", ["--cases", 800, "--thorough"])]},
+        "diff_prefix": ["c19."], "oracle_fields": ["o_c19"], "rule": CONFIG_RULE,
+        "trusted_base": ["tools/translate.py: struct shapes, serde attributes (container default, tag, per-field default fns) and Default impls are read from config.rs on every run",
+                         "the toml 0.5 / serde text layer (text <-> value tree) is MODELLED, not verified: the model starts at serde's data model; the text layer is exercised by the direct round-trip oracle"],
+        "assumptions": ["workers is None or non-zero (Option<NonZeroUsize>)", "TOML integers are non-negative and below 2^63 (see known finding K1)"],
+    },
+})
